@@ -562,8 +562,12 @@ class _NP:
 
     def meshgrid(self, *xi, indexing="xy"):
         _use("meshgrid")
-        if len(xi) != 2 or indexing != "xy":
-            raise Unsupported("meshgrid other than 2-D 'xy'")
+        if len(xi) != 2 or indexing not in ("xy", "ij"):
+            raise Unsupported("meshgrid other than 2-D 'xy' / 'ij'")
+        if indexing == "ij":
+            # meshgrid(a, b, indexing="ij") = (A, B) with A[i, j] = a[i], B[i, j] = b[j]: the 'xy' grids of (b, a), swapped
+            B_, A_ = self.meshgrid(xi[1], xi[0], indexing="xy")
+            return (A_, B_)
         x, y = as_array(xi[0]), as_array(xi[1])
         if x.ndim != 1:
             x = x.ravel()
@@ -830,7 +834,10 @@ class _NP:
         es = el.snapshot()
         if not _arrish(test_elements):
             v = _as_scalar(test_elements)
-            return new_array(el.shape, lambda idx: _numeric(es(*idx)) == _numeric(v), "b")
+            out = new_array(el.shape, lambda idx: _numeric(es(*idx)) == _numeric(v), "b")
+            if el.ndim == 1 and el.kind == "i":
+                out._count_of = (el, v)  # .sum() of this mask is the number of entries equal to v
+            return out
         te = as_array(test_elements)
         if te.ndim != 1:
             raise Unsupported("isin with rank-%d test elements" % te.ndim)
@@ -846,6 +853,12 @@ class _NP:
             mm = te.shape[0]
             return new_array(el.shape, lambda idx: or_(*[and_(t < mm, _numeric(es(*idx)) == _numeric(ts(t))) for t in range(int(bound))]), "b")
         return new_array(el.shape, lambda idx: or_(*[_numeric(es(*idx)) == _numeric(ts(t)) for t in range(int(m))]) if int(m) else False, "b")
+
+    def nonzero(self, a):
+        return self.where(a)
+
+    def flatnonzero(self, a):
+        return self.where(as_array(a).ravel())[0]
 
     def split(self, ary, indices_or_sections, axis=0):
         """np.split of a 1-D array at a 1-D array (or list) of split points of concrete length: consecutive slices."""
@@ -964,9 +977,18 @@ class _NP:
     def unique(self, a, **kw):
         from .prelude_groupby import np_unique
 
+        counts = kw.pop("return_counts", False)
         if kw:
             raise Unsupported("np.unique with options")
         a = as_array(a)
+        if counts:
+            from .sums import count_equal
+
+            keys = np_unique(a)
+            G = concrete_value(keys.shape[0])
+            if G is None:
+                raise Unsupported("np.unique(return_counts=True) with a symbolic number of distinct values")
+            return keys, from_list([count_equal(a, keys.at(g)) for g in range(int(G))], "i")
         n = concrete_value(a.shape[0]) if a.ndim == 1 else None
         if n is not None and 0 < int(n) <= 6:
             return SmallUnique([_numeric(a.at(i)) for i in range(int(n))])
@@ -1063,9 +1085,12 @@ class _NP:
         return self.full(a.shape, value, dtype if dtype is not None else a.dtype)
 
     def stack(self, arrs, axis=0):
+        arrs = [as_array(x) for x in arrs]
+        if axis in (-1, 1) and all(a.ndim == 1 for a in arrs):
+            return self.column_stack(arrs)  # 1-D arrays stacked along a new last axis are the columns of an (n, k) matrix
         if axis != 0:
             raise Unsupported("stack(axis != 0)")
-        return from_list([as_array(x) for x in arrs])
+        return from_list(arrs)
 
     def vstack(self, arrs):
         arrs = [as_array(x) for x in arrs]
